@@ -28,6 +28,12 @@ Step ==
              ELSE /\ ok' = FALSE
                   /\ PrintT(<<"REJECT", ToJson([trace |-> e.trace, line |-> l, why |-> "construction",
                                                 expected |-> ObsL(e.cfg, s0), logged |-> e.post, op |-> [op |-> "new"]])>>)
+     ELSE IF e.ev = "Quiet"
+     THEN \* C05 under concurrency: once every update has completed, enforcement equals the estimate floored at 1
+          /\ UNCHANGED <<ok, cfg, s>>
+          /\ e.post.limit # Max(1, e.post.est) =>
+                PrintT(<<"REJECT", ToJson([trace |-> e.trace, line |-> l, why |-> "all updates completed and the strategy enforces another limit than the algorithm's estimate",
+                                           expected |-> [limit |-> Max(1, e.post.est)], logged |-> e.post, op |-> [op |-> "quiet"]])>>)
      ELSE IF ~ok THEN UNCHANGED <<ok, cfg, s>>
      ELSE IF ~EnabledL(cfg, s, e.op)
           THEN /\ Reject(e, "operation not enabled in the contract state", ObsL(cfg, s))
